@@ -5,7 +5,11 @@
 //	bigintgen <repo> <verif>
 //
 // writes <verif>/coq/Gen/BigIntRoutines.v (only when its content changes).
-// Proofs/BigIntRoutinesEq.v ties every generated definition to the
+// Exit status: 0 all roots translated; 3 the file was written but some
+// functions could not be translated (each gets a marker definition
+// <name>__TRANSLATION_FAILED : unit instead of its translation, the positioned
+// messages are on stderr); 1 fatal error, nothing written; 2 usage.
+// Proofs/BigIntEq*.v tie every generated definition to the
 // hand-written model (Model/Utils.v, BabyJub.v, BabyJubCore.v, Eddsa.v,
 // Poseidon.v, Mimc7.v) by a lemma gen_<pkg>_<name>_eq.  The translation
 // scheme is documented in README.md next to this file.
@@ -102,6 +106,14 @@ func main() {
 		os.Exit(2)
 	}
 	repo, verif := os.Args[1], os.Args[2]
+	defer func() { // a transErr outside a translation (loading the packages): fatal
+		if r := recover(); r != nil {
+			if te, ok := r.(transErr); ok {
+				fatalf("%s", te.msg)
+			}
+			panic(r)
+		}
+	}()
 	g := &gen{repo: repo, pkgs: map[string]*pkg{}, done: map[string]*summary{}, inpr: map[string]bool{}}
 	for _, n := range []string{"constants", "utils", "mimc7", "poseidon", "babyjub"} {
 		g.pkgs[n] = loadPkg(repo, n)
@@ -117,4 +129,11 @@ func main() {
 		g.summaryOf(r[:i], r[i+1:], nil)
 	}
 	writeIfChanged(filepath.Join(verif, "coq", "Gen", "BigIntRoutines.v"), []byte(g.emitFile()))
+	if g.nfail > 0 {
+		// exit status 3: the file was written, with a marker definition
+		// <name>__TRANSLATION_FAILED in place of each function that could not be
+		// translated (status 1 is a fatal error: nothing written; 2: usage)
+		fmt.Fprintf(os.Stderr, "bigintgen: %d function(s) could not be translated (marker definitions emitted)\n", g.nfail)
+		os.Exit(3)
+	}
 }
